@@ -133,7 +133,7 @@ def classify_residual(f, tolz, tolnz):
 UNIT_EXP = 12          # fixed point unit = 10^-12 * scale
 LIMB = 10 ** 6
 LN_CLIP = 150 * 10 ** 6  # micro-ln values are clipped to +-150e6 (flagged)
-LIN_CLIP = 10 ** 9     # hi limb clipped to +-1e9 (|x| up to 1000 * scale)
+LIN_CLIP = 10 ** 7     # hi limb clipped to +-1e7 (|x| up to 10 * scale; EqSolve!InModel)
 
 
 def dec_float(me):
